@@ -42,6 +42,30 @@ pub fn generate(kind: &str, seed: u64, run: u64, _thorough: bool) -> Scenario {
             m.insert("true_positives".into(), Yaml::Sequence(docs.iter().take(ntp).map(|d| d.to_yaml()).collect()));
             m.insert("true_negatives".into(), Yaml::Sequence(docs.iter().skip(1).take(ntn).map(|d| d.to_yaml()).collect()));
         }
+        // identifiers whose names need quoting or look like other YAML types (never referenced by
+        // the condition, which could not spell them), and examples with values YAML re-types
+        if rr.chance(1, 5) {
+            if let Some(det) = y.as_mapping_mut().and_then(|m| m.get_mut("detection")).and_then(|d| d.as_mapping_mut()) {
+                let name = *rr.pick(&["1", "true", "null", "~", "yes", "1.5", "a b", "0x10", "key: x", "- item", "true_positives", "detection", "Condition"]);
+                let mut m = serde_yaml::Mapping::new();
+                m.insert("a".into(), "foo".into());
+                det.insert(Yaml::String(name.to_owned()), Yaml::Mapping(m));
+            }
+        }
+        if rr.chance(1, 5) {
+            let mut ex = serde_yaml::Mapping::new();
+            ex.insert("a".into(), Yaml::Number(1e21.into()));
+            ex.insert("b".into(), Yaml::Number((-0.0f64).into()));
+            ex.insert("c".into(), Yaml::Number(f64::INFINITY.into()));
+            ex.insert("d".into(), Yaml::Number(9007199254740993i64.into()));
+            ex.insert("e".into(), Yaml::Number(u64::MAX.into()));
+            ex.insert(Yaml::Number(7.into()), Yaml::String("int key".into()));
+            ex.insert("f".into(), Yaml::String("1e3".into()));
+            ex.insert("g".into(), Yaml::String("0o17".into()));
+            if let Some(Yaml::Sequence(tn)) = y.as_mapping_mut().and_then(|m| m.get_mut("true_negatives")) {
+                tn.push(Yaml::Mapping(ex));
+            }
+        }
         let mut text = gen::rule_text(&y);
         // YAML features the two loaders must treat alike: merge keys and anchors/aliases
         if rr.chance(1, 8) {
@@ -178,6 +202,30 @@ pub fn execute(sc: &Scenario) -> Outcome {
                 Violation::new("from_value_panic", format!("panic@{}", p.site()), format!("from_value panicked: {}", p.msg)),
             ),
         }
+    }
+    // Rule::load (through the rule store) and from_str give the same rule
+    {
+        let dir = crate::verif_dir().join("sim/target/scratch").join(format!("c14-{}-{:?}", std::process::id(), std::thread::current().id()).replace(['(', ')'], ""));
+        let _ = std::fs::create_dir_all(&dir);
+        let path = dir.join("rule.yml");
+        if std::fs::write(&path, &sc.rule_text).is_ok() {
+            match guarded(|| Rule::load(&path)) {
+                Ok(Ok(r3)) => {
+                    if show(&r3) != show(&rule) || verdicts(&r3, sc) != base_verdicts {
+                        push_violation(
+                            &mut vs,
+                            Violation::new("load_and_from_str_disagree", "tree".into(), format!("Rule::load of the same text gives another rule:\n  {}\n  {}", show(&rule), show(&r3))),
+                        );
+                    }
+                }
+                Ok(Err(e)) => push_violation(
+                    &mut vs,
+                    Violation::new("load_and_from_str_disagree", "rejected".into(), format!("from_str accepted the text but Rule::load of a file with the same bytes rejected it: {}", e)),
+                ),
+                Err(p) => push_violation(&mut vs, Violation::new("load_panic", format!("panic@{}", p.site()), format!("Rule::load panicked: {}", p.msg))),
+            }
+        }
+        let _ = std::fs::remove_dir_all(&dir);
     }
     let subject = if sw == 0 {
         (*rule).clone()
